@@ -278,6 +278,15 @@ def run(report, p):
 
         nx = [r.value for r in rets if isinstance(r.value, ast.Call) and norm(r.value.func) == "next" and len(r.value.args) == 2 and isinstance(r.value.args[1], ast.Constant) and r.value.args[1].value == 0]
         ok_scan = len(nx) == len(rets) == 1 and gen_chain(nx[0].args[0])
+    if not ok_scan and not loops and len(rets) == 1:
+        # numbers = [h.generation_number for h in self.hash_lists if h.generation_number]; return numbers[-1] if numbers else 0  - the last number in list order
+        rv = rets[0].value
+        if isinstance(rv, ast.IfExp) and isinstance(rv.test, ast.Name) and isinstance(rv.orelse, ast.Constant) and rv.orelse.value == 0 and norm(rv.body) == f"{rv.test.id}[-1]":
+            b = [n.value for n in walk_no_nested(lgn.node) if isinstance(n, ast.Assign) and len(n.targets) == 1 and isinstance(n.targets[0], ast.Name) and n.targets[0].id == rv.test.id]
+            if len(b) == 1 and isinstance(b[0], ast.ListComp) and len(b[0].generators) == 1:
+                gen = b[0].generators[0]
+                tv = norm(gen.target)
+                ok_scan = norm(gen.iter).endswith("hash_lists") and is_plain_iter(p, gen.iter) and norm(b[0].elt) == f"{tv}.generation_number" and all(norm(i) == norm(b[0].elt) for i in gen.ifs)
     r3.check(ok_scan, lgn, lgn.node, "latest_generation_number does not scan all generations", construct="latest_generation_number")
     # every value it can return is a number read from a manifest that was actually loaded (or the constant start value):
     # the chain file lags behind the manifests after an interrupted run, a number taken from it can be one that is already used
